@@ -163,6 +163,9 @@ fn run_case(cs: &Value, vals: &[f32], m: &TMap) -> Result<(Got, Got), String> {
 }
 
 static TIMES_ONLY: std::sync::atomic::AtomicBool = std::sync::atomic::AtomicBool::new(false);
+/// how the power function of the build under test may differ from the host's f32::powf:
+/// 0 = bit-exact (std build), n > 0 = within n ulps (libm), -1 = not compared (micromath approximation)
+static POW_ULPS: std::sync::atomic::AtomicI64 = std::sync::atomic::AtomicI64::new(0);
 fn same_f32(a: f32, b: f32) -> bool {
     TIMES_ONLY.load(std::sync::atomic::Ordering::Relaxed) || a.to_bits() == b.to_bits() || (a.is_nan() && b.is_nan())
 }
@@ -178,7 +181,16 @@ fn matches(exp: &Value, g: &Got, vals: &[f32], m: &TMap) -> bool {
     match (s(exp, "c"), g) {
         ("err", Got::Num(Err(e))) | ("err", Got::Bool(Err(e))) => err_code(e) == i(exp, "e"),
         ("none", Got::Num(Ok(None))) | ("none", Got::Bool(Ok(None))) => true,
-        ("some", Got::Num(Ok(Some(d)))) => d.time == m.t(i(exp, "t")) && same_f32(d.value, eval(&exp["v"], vals)),
+        ("some", Got::Num(Ok(Some(d)))) => {
+            let pu = POW_ULPS.load(std::sync::atomic::Ordering::Relaxed);
+            let e = eval(&exp["v"], vals);
+            let val_ok = if exp["v"]["op"] == "pow" && pu != 0 {
+                pu < 0 || (d.value.is_nan() && e.is_nan()) || (f32_key(d.value) - f32_key(e)).abs() <= pu
+            } else {
+                same_f32(d.value, e)
+            };
+            d.time == m.t(i(exp, "t")) && val_ok
+        }
         ("some", Got::Bool(Ok(Some(d)))) => d.time == m.t(i(exp, "t")) && Some(d.value) == exp["v"].as_bool(),
         _ => false,
     }
@@ -197,6 +209,9 @@ fn main() {
     let lines = read_lines(&args[2]);
     let seed: u64 = args[3].parse().unwrap_or(1);
     let only: Option<usize> = args.iter().position(|a| a == "--only").map(|p| args[p + 1].parse().unwrap());
+    if let Some(p) = args.iter().position(|a| a == "--pow-ulps") {
+        POW_ULPS.store(args[p + 1].parse().unwrap(), std::sync::atomic::Ordering::Relaxed);
+    }
     if args.iter().any(|a| a == "--times-only") {
         TIMES_ONLY.store(true, std::sync::atomic::Ordering::Relaxed);
     }
